@@ -53,12 +53,19 @@ fn holds(p: &PredSpec, v: i64) -> bool {
 
 fn case(id: String, cd_name: &str, cd: &CredDef, sig: Value, vals: &BTreeMap<String, String>, req: &ReqSpec, e_bits: usize,
         cheat: Value, expect_accept: bool, class: Value, rng: &mut Rng) -> Value {
+    case_mt(id, cd_name, cd, sig, vals, req, e_bits, cheat, expect_accept, class, rng, None)
+}
+
+#[allow(clippy::too_many_arguments)]
+fn case_mt(id: String, cd_name: &str, cd: &CredDef, sig: Value, vals: &BTreeMap<String, String>, req: &ReqSpec, e_bits: usize,
+        cheat: Value, expect_accept: bool, class: Value, rng: &mut Rng, fixed_mt: Option<(&str, &str)>) -> Value {
     let mut m_tilde = BTreeMap::new();
     for a in cd.attrs.iter().chain(cd.non_attrs.iter()) {
         if !req.revealed.contains(a) && a != "master_secret" {
             m_tilde.insert(a.clone(), draw(rng, 592));
         }
     }
+    if let Some((a, v)) = fixed_mt { m_tilde.insert(a.to_string(), v.to_string()); }
     let common: BTreeMap<String, String> = [("master_secret".to_string(), draw(rng, 592))].into_iter().collect();
     let nonce = new_nonce().ok().and_then(|n| n.to_dec().ok()).unwrap_or_default();
     let e_tilde = if e_bits == 456 { draw(rng, 456) } else { draw_exact(rng, e_bits) };
@@ -134,6 +141,49 @@ pub fn gen_forge(thorough: bool, rng: &mut Rng) -> Result<(), String> {
                 emit(&case(format!("forge/{}/unlinked/{}", k, li), name, cd, sig.clone(), &hv, &req, 456,
                     json!({"kind": "unlinked", "pred_index": ci, "value": v, "m_tilde": draw(rng, 592)}), false,
                     json!({"kind": "unlinked", "layout": li, "npred": preds.len(), "def": name}), rng));
+            }
+            // ---- (b2) the predicate proven about the NEGATED value with the negated mask: its response is exactly
+            //      minus the equality proof's response (only a sign-aware comparison tells them apart)
+            {
+                let link = dec_of_hex(&rng.hex_bits(255));
+                let mut hn = hold(&pool, name, &link, rng)?;
+                let agep: i64 = rng.range(10, 1000);
+                hn.known.insert("age".into(), agep.to_string());
+                hn.cred = issue(cd, &hn.known, &hn.hidden, "p", None)?;
+                let mut hvn: BTreeMap<String, String> = hn.known.clone();
+                for (a, v) in &hn.hidden { hvn.insert(a.clone(), v.clone()); }
+                let sign = jv(&hn.cred.sig)["p_credential"].clone();
+                let falsy_le = PredSpec { attr: "age".into(), ptype: "LE".into(), value: (agep - 1 - rng.range(0, 5)) as i32 };
+                let mt = draw(rng, 592);
+                let req = ReqSpec { revealed: vec![], predicates: vec![falsy_le] };
+                emit(&case_mt(format!("forge/{}/negated", k), name, cd, sign, &hvn, &req, 456,
+                    json!({"kind": "unlinked", "pred_index": 0, "value": -agep, "m_tilde": format!("-{}", mt)}), false,
+                    json!({"kind": "unlinked", "layout": "negated value and mask", "npred": 1, "def": name}), rng, Some(("age", &mt))));
+            }
+            // ---- (b3) a repeated predicate proof standing in for a missing one: the true predicate proven, sent twice
+            {
+                let req = ReqSpec { revealed: vec![], predicates: vec![truthy.clone(), falsy.clone()] };
+                // BTreeSet order of the verifier's request does not matter: both sub-proofs carry the same predicate
+                let mut first_true = req.clone();
+                first_true.predicates = vec![truthy.clone(), falsy.clone()];
+                emit(&case(format!("forge/{}/duplicate", k), name, cd, sig.clone(), &hv, &first_true, 456,
+                    json!({"kind": "duplicate_predicate"}), false,
+                    json!({"kind": "duplicate_predicate", "npred": 2, "def": name}), rng));
+            }
+            // ---- (b4) a hidden value split into a hidden part and an UNREQUESTED revealed entry: the parts recombine in the
+            //      verification equation, only the comparison of the revealed set with the request refuses it
+            for (si, attr) in ["master_secret", "age"].iter().enumerate() {
+                let req = ReqSpec { revealed: vec![cd.attrs[0].clone()], predicates: vec![] };
+                if req.revealed.contains(&attr.to_string()) { continue; }
+                emit(&case(format!("forge/{}/split/{}", k, si), name, cd, sig.clone(), &hv, &req, 456,
+                    json!({"kind": "split_hidden", "attr": attr, "d": draw(rng, 200)}), false,
+                    json!({"kind": "split_hidden", "attr": attr, "def": name}), rng));
+            }
+            // ---- (a2) no credential, A' = 0 / n: T-hat collapses unless the verifier insists on an inverse
+            for which in ["0", "n"] {
+                emit(&case(format!("forge/{}/zero_a_prime/{}", k, which), name, cd, Value::Null, &vals, &req_plain, 456,
+                    json!({"kind": "zero_a_prime", "which": which}), false,
+                    json!({"kind": "zero_a_prime", "which": which, "def": name}), rng));
             }
             // ---- (c) control: the same machinery, honest
             let req = ReqSpec { revealed: vec![cd.attrs[0].clone()], predicates: vec![truthy.clone(), PredSpec { attr: "age".into(), ptype: "LE".into(), value: (age + rng.range(0, 50)) as i32 }] };
